@@ -41,6 +41,37 @@ func (db *DB) Association(column string) *Association {
 	return association
 }
 
+// belongsToTargetsExpr matches the records of a belongs-to relation that the given owners point at,
+// by the columns the relation references. The foreign key values are copied: a pointer foreign key
+// is overwritten in place when the relation is saved.
+func (association *Association) belongsToTargetsExpr(reflectValue reflect.Value) clause.Expression {
+	var (
+		rel           = association.Relationship
+		foreignFields []*schema.Field
+		refColumns    []string
+	)
+	for _, ref := range rel.References {
+		if !ref.OwnPrimaryKey && ref.PrimaryValue == "" {
+			foreignFields = append(foreignFields, ref.ForeignKey)
+			refColumns = append(refColumns, ref.PrimaryKey.DBName)
+		}
+	}
+
+	_, fvs := schema.GetIdentityFieldValuesMap(association.DB.Statement.Context, reflectValue, foreignFields)
+	if len(fvs) == 0 {
+		return nil
+	}
+	for _, fv := range fvs {
+		for i, v := range fv {
+			if rv := reflect.ValueOf(v); rv.Kind() == reflect.Ptr && !rv.IsNil() {
+				fv[i] = rv.Elem().Interface()
+			}
+		}
+	}
+	column, values := schema.ToQueryValues(rel.FieldSchema.Table, refColumns, fvs)
+	return clause.IN{Column: column, Values: values}
+}
+
 func (association *Association) Unscoped() *Association {
 	return &Association{
 		DB:           association.DB,
@@ -80,16 +111,7 @@ func (association *Association) Replace(values ...interface{}) error {
 		var oldBelongsToExpr clause.Expression
 		// we have to record the old BelongsTo value
 		if association.Unscope && rel.Type == schema.BelongsTo {
-			var foreignFields []*schema.Field
-			for _, ref := range rel.References {
-				if !ref.OwnPrimaryKey {
-					foreignFields = append(foreignFields, ref.ForeignKey)
-				}
-			}
-			if _, fvs := schema.GetIdentityFieldValuesMap(association.DB.Statement.Context, reflectValue, foreignFields); len(fvs) > 0 {
-				column, values := schema.ToQueryValues(rel.FieldSchema.Table, rel.FieldSchema.PrimaryFieldDBNames, fvs)
-				oldBelongsToExpr = clause.IN{Column: column, Values: values}
-			}
+			oldBelongsToExpr = association.belongsToTargetsExpr(reflectValue)
 		}
 
 		// save associations
@@ -117,8 +139,15 @@ func (association *Association) Replace(values ...interface{}) error {
 
 				association.Error = association.DB.UpdateColumns(updateMap).Error
 			}
-			if association.Unscope && oldBelongsToExpr != nil {
-				association.Error = association.DB.Model(nil).Where(oldBelongsToExpr).Delete(reflect.New(rel.FieldSchema.ModelType).Interface()).Error
+			if association.Unscope && oldBelongsToExpr != nil && association.Error == nil {
+				// delete the records the owners pointed at before, except those they point at now;
+				// on a statement of its own, association.DB carries the owners' table and conditions
+				model := reflect.New(rel.FieldSchema.ModelType).Interface()
+				tx := association.DB.Session(&Session{NewDB: true}).Model(model).Where(oldBelongsToExpr)
+				if newBelongsToExpr := association.belongsToTargetsExpr(reflectValue); newBelongsToExpr != nil {
+					tx = tx.Not(newBelongsToExpr)
+				}
+				association.Error = tx.Delete(model).Error
 			}
 		case schema.HasOne, schema.HasMany:
 			var (
@@ -231,17 +260,23 @@ func (association *Association) Delete(values ...interface{}) error {
 			relColumn, relValues := schema.ToQueryValues(rel.Schema.Table, foreignKeys, rvs)
 			conds = append(conds, clause.IN{Column: relColumn, Values: relValues})
 
-			association.Error = tx.Clauses(conds...).UpdateColumns(updateAttrs).Error
+			// the records the owners point at, before the link is removed
+			var linkedExpr clause.Expression
 			if association.Unscope {
-				var foreignFields []*schema.Field
-				for _, ref := range rel.References {
-					if !ref.OwnPrimaryKey {
-						foreignFields = append(foreignFields, ref.ForeignKey)
-					}
+				linkedExpr = association.belongsToTargetsExpr(reflectValue)
+			}
+
+			association.Error = tx.Clauses(conds...).UpdateColumns(updateAttrs).Error
+			if association.Unscope && linkedExpr != nil && association.Error == nil {
+				// delete the given records that were linked, not whatever the owners point at
+				var refColumns []string
+				for _, field := range primaryFields {
+					refColumns = append(refColumns, field.DBName)
 				}
-				if _, fvs := schema.GetIdentityFieldValuesMap(association.DB.Statement.Context, reflectValue, foreignFields); len(fvs) > 0 {
-					column, values := schema.ToQueryValues(rel.FieldSchema.Table, rel.FieldSchema.PrimaryFieldDBNames, fvs)
-					association.Error = associationDB.Model(nil).Where(clause.IN{Column: column, Values: values}).Delete(reflect.New(rel.FieldSchema.ModelType).Interface()).Error
+				if column, values := schema.ToQueryValues(rel.FieldSchema.Table, refColumns, rvs); len(values) > 0 {
+					model := reflect.New(rel.FieldSchema.ModelType).Interface()
+					association.Error = associationDB.Session(&Session{NewDB: true}).Model(model).
+						Where(linkedExpr).Where(clause.IN{Column: column, Values: values}).Delete(model).Error
 				}
 			}
 		case schema.HasOne, schema.HasMany:
